@@ -23,7 +23,7 @@ def sockItemOk (it : String) : Bool :=
   (it.startsWith "m" || it.startsWith "r") && isHexStr (it.drop 1).toString
 
 def sockEvOk (t : String) : Bool :=
-  ["up", "cut", "hold", "holdAB", "holdBA", "rel", "down", "open", "rsA", "rsB"].contains t
+  ["up", "cut", "hold", "holdAB", "holdBA", "rel", "down", "open", "rsA", "rsB", "cutpdAB", "cutpdBA"].contains t
   || sockNumTok "sA" t || sockNumTok "sB" t || sockNumTok "p" t || sockNumTok "w" t
   || (t.startsWith "jraw:" && isHexStr (t.drop 5).toString)
   || (t.startsWith "jmsg:" && isHexStr (t.drop 5).toString)
@@ -41,6 +41,23 @@ def sockOpOk (kv : List (String × String)) : Bool :=
   && (match kv.lookup "start" with | some s => s == "open" || s == "down" | none => false)
   && (match kv.lookup "stop" with | some s => s == "ia" || s == "ai" | none => false)
   && (match sockEvents kv with | some evs => evs.all sockEvOk | none => false)
+
+/-- id lists of the observation: comma separated, a run of consecutive ids written `a1..a3000` -/
+def sockIdNum? (s : String) : Option (String × Nat) :=
+  match s.toList with
+  | c :: rest => if rest.isEmpty then none else (String.ofList rest).toNat?.map (fun n => (String.singleton c, n))
+  | [] => none
+
+def sockIds (s : String) : List String :=
+  if s == "-" then [] else
+  (s.splitOn ",").flatMap fun part =>
+    match part.splitOn ".." with
+    | [a, b] =>
+      (match sockIdNum? a, sockIdNum? b with
+       | some (pa, na), some (pb, nb) =>
+         if pa == pb && na ≤ nb then (List.range (nb + 1 - na)).map (fun i => pa ++ toString (na + i)) else [part]
+       | _, _ => [part])
+    | _ => [part]
 
 def sockStep (_ : Unit) (w : List String) : Unit × String :=
   match w with
